@@ -500,6 +500,14 @@ class NN:
                     return self.root(it[2][0])[0]
                 if is_call(it, "itertools.combinations") and len(it[2]) == 2 and is_const(it[2][1], 2):
                     return self.coll_space(q, it[2][0])
+                # for i, j in pairs, where pairs collects combinations(values, 2) of position lists
+                if head(it) == "after" and isinstance(it[2], str) and t[2] in (0, 1):
+                    lp = self.summary(q).loops.get(it[1])
+                    upd = strip(lp.update.get(it[2], NONE)) if lp is not None else NONE
+                    if head(upd) == "mut" and upd[1] == "update" and len(upd[3]) == 1:
+                        c = strip(upd[3][0])
+                        if is_call(c, "itertools.combinations") and len(c[2]) == 2 and is_const(c[2][1], 2):
+                            return self.coll_space(q, c[2][0])
                 # for i, j, d in <triplet collection>
                 ts = self.trip_spaces(q, it)
                 if ts is not None and t[2] in (0, 1):
